@@ -103,7 +103,13 @@ theorem visit_spec (m : Bytes) (st : St) (current pslot : Nat) (par : Option Nat
   unfold visit
   by_cases hc : st.writable.contains current = true
   · rw [if_pos hc]
-    refine ⟨h, ?_, ?_, h.2 current (by simpa using hc), hw⟩ <;> rfl
+    have hmem : current ∈ st.writable := by simpa using hc
+    refine ⟨⟨h.1, ?_⟩, rfl, rfl, h.2 current hmem, hw⟩
+    intro w hw2
+    simp only [List.mem_cons, List.mem_filter] at hw2
+    rcases hw2 with rfl | hw2
+    · exact h.2 _ hmem
+    · exact h.2 w hw2.1
   · rw [if_neg hc]
     obtain ⟨ci, cf, ct, cp⟩ := cloneOf_spec st current h
     have hp' : Private (cloneOf st current).1 par := by intro x hx; rw [cf]; exact hp x hx
